@@ -238,6 +238,22 @@ def r2_reachability(ctx):
                     for key in v.wr:
                         writes.append((v.term, key, v.over[key]))
             ok = len(writes) == 2
+            if len(writes) == 1:
+                # old_id may be the kept nodes copied as a whole (to_vec / clone of the slice): then old_id[i] = keep[i]
+                # holds by construction and an iteration only records new_id[keep[i]] = i
+                copied = False
+                for o in log.outs:
+                    if o.kind == 'ret':
+                        t_ = ip.to_term(o.state, o.value)
+                        flds = t_[3] if t_[0] == 'mk' else ()
+                        copied = copied or any(f == keep or (f[0] == 'list' and len(f[1]) == 1 and f[1][0][0] == 'slice' and f[1][0][1] == keep and f[1][0][2] == I(0) and f[1][0][3] == T.typed(('len', keep), 'usize')) for f in flds)
+                (t1, k1, v1), = writes
+                node = k1[1] if isinstance(k1, tuple) and len(k1) > 1 else None
+                ok = copied and node is not None and node[0] == 'elem' and node[1] == keep and node[2] == v1 and any(v1 == c_ for c_, _ in counters(ip, it, I(0)))
+                n += 1 if ok else 0
+                ctx.obligation(ok)
+                (ctx.ok if ok else ctx.violation)('C14.R2', 'C14.R2/from_array/new_id-and-old_id-are-inverse-on-kept-nodes', fn.path, fn.site(), {'form': 'old_id copied from the kept nodes'}, cfg)
+                continue
             if ok:
                 n += 1
                 el = None
@@ -320,7 +336,9 @@ def r3_iterators(ctx):
         for itn in log.iterations:
             # continuing means a[i] is not final, for a position i that starts at self.index and advances by one
             # (an index variable, the position of a slice iterator after skip(index), ..)
-            ok = any(ip.entails(itn.state, NOT(isf(i))) for i, _ in counters(ip, itn, idx0))
+            # (.. or of a[index..] from 0: the state looked at is a[index + position])
+            ok = any(ip.entails(itn.state, NOT(isf(i if ev == idx0 else T.mk_add(idx0, T.mk_sub(i, ev))))) for i, ev in counters(ip, itn)
+                     if ev == idx0 or T.is_int(ev))
             ctx.obligation(ok)
             (ctx.ok if ok else ctx.violation)('C14.R3', 'C14.R3/FinalStateIterator::next/skips-exactly-non-final-states', fn.path, fn.site(), None, cfg)
         for o in log.outs:
